@@ -292,38 +292,17 @@ def pv_canon(w):
     return pv_from_model(w)
 
 
-def float_cls(f):
-    return "nan" if math.isnan(f) else ("inf" if math.isinf(f) else "finite")
-
-
-def _float_obs(f):
-    integral = int(f) if (math.isfinite(f) and f.is_integer()) else None
-    return repr(f), integral, float_cls(f)
-
-
 def jv_wire(j):
-    """JSON value -> wire, annotated with what Python's own int()/float() builtins say about
-    strings and floats (Python builtins are modelled, not verified)."""
+    """JSON value -> wire. A float travels as its number lexeme (Python's repr of the double); what int() / float() make of
+    strings and floats is computed by the Lean lexeme model (PyGqlModel/PyNum.lean), nothing is annotated here."""
     if j is None or isinstance(j, bool):
         return j
     if isinstance(j, int):
         return j
     if isinstance(j, float):
-        r, integral, cls = _float_obs(j)
-        return {"f": r, "int": integral, "cls": cls}
+        return {"f": repr(j)}
     if isinstance(j, str):
-        try:
-            i10 = int(j, 10)
-        except ValueError:
-            i10 = None
-        flt = None
-        try:
-            f = float(j)
-            r, integral, cls = _float_obs(f)
-            flt = {"r": r, "int": integral, "cls": cls}
-        except ValueError:
-            pass
-        return {"s": j, "i10": i10, "flt": flt}
+        return {"s": j}
     if isinstance(j, list):
         return [jv_wire(x) for x in j]
     if isinstance(j, dict):
@@ -339,8 +318,6 @@ def lit_wire(l):
         return {"k": "list", "v": [lit_wire(x) for x in l[1]]}
     if k == "obj":
         return {"k": "obj", "v": [[n, lit_wire(x)] for n, x in l[1]]}
-    if k == "float":
-        return {"k": k, "v": l[1], "cls": float_cls(float(l[1]))}     # `1e999` is +inf for Python's float()
     return {"k": k, "v": l[1]}
 
 
